@@ -119,6 +119,7 @@ zproc = subprocess.Popen([exe, zfile], stdout=subprocess.PIPE, stderr=subprocess
 # harness/C14/huge_harness.cpp. SipHash: the block count / tail index must use all 64 bits of len; digests: byte and bit
 # counters beyond 2^32 bytes. quick: SipHash 2^32+13 and one digest picked by the seed; thorough: everything.
 G32 = 1 << 32
+_G30 = 1 << 30
 _hr = verif.SplitMix64(ck.seed * 7919 + 17)
 _hkey = bytes(_hr.below(256) for _ in range(16)).hex()
 
@@ -126,6 +127,12 @@ _hkey = bytes(_hr.below(256) for _ in range(16)).hex()
 def _hchunks(n):
     c1 = 1 + _hr.below(63); c2 = (1 << 31) + _hr.below(1000); c3 = (1 << 30) + 64 * _hr.below(1000)
     return "%d,%d,%d,%d" % (c1, c2, c3, n - c1 - c2 - c3)
+
+
+def view_cases(algo, k):
+    """ONE tlx::string_view whose length is just above a multiple of the 2^30-byte piece size of process(string_view): the last
+    piece lies in a marker region that differs from the head of the message (C14_12)"""
+    return ["V %s %s %d %d" % (algo, "nz"[(k + i_) % 2], n_, (k + i_) % 3) for i_, n_ in enumerate((_G30 + 200, 2 * _G30 + 7, 3 * _G30 + 5))]
 
 
 def big_single_calls(algo, subset):
@@ -152,11 +159,12 @@ if not ck.replay:
                   "G n %d %s" % (G32 - 3, _hkey), "G n %d %s" % (G32 + 13, _hkey)]
         hcases += ["H %s %s %d %s" % (a_, "n" if i_ % 2 == 0 else "z", G32 + 13 + i_, _hchunks(G32 + 13 + i_)) for i_, a_ in enumerate(ALGOS)]
         hcases += ["V %s n %d %d" % (a_, G32 + 13 + i_, i_ % 3) for i_, a_ in enumerate(ALGOS)]
+        for i_, a_ in enumerate(ALGOS): hcases += view_cases(a_, i_)
         for a_ in ALGOS: hcases += big_single_calls(a_, False)
     else:
         a_ = ALGOS[(ck.seed + 1) % 4]
         hcases = ["G n %d %s" % (G32 + 13, _hkey), "H %s n %d %s" % (a_, G32 + 13, _hchunks(G32 + 13)),
-                  "V %s n %d %d" % (ALGOS[(ck.seed + 2) % 4], G32 + 13, ck.seed % 3)]
+                  ] + view_cases(ALGOS[(ck.seed + 2) % 4], ck.seed)
         hcases += big_single_calls(ALGOS[(ck.seed + 3) % 4], True)
     hcases = hcorpus + [c for c in hcases if c not in hcorpus]
 elif replay_case[:2] in ("G ", "H ", "V "):
@@ -166,23 +174,28 @@ open(hfile, "w").write("".join(c + "\n" for c in hcases))
 hproc = subprocess.Popen([hexe, hfile], stdout=subprocess.PIPE, stderr=subprocess.STDOUT, universal_newlines=True) if (hcases and hexe) else None
 
 
+MARK_A = [7, 13, 29, 37, 43, 53]
+MARK_B = [1, 5, 17, 33, 65, 129]
+MAPLEN = G32 + 65536
+MARK_REGIONS = [(0, 4096)] + [(k * _G30 - 4096, k * _G30 + 4096) for k in (1, 2, 3, 4)] + [(MAPLEN - 4096, MAPLEN)]
+
+
 def huge_content(mapping, n):
-    """the bytes of the first n bytes of mapping 'z' / 'n', in pieces"""
-    if mapping == "z":
-        segs = [(0, n, None)]
-    else:
-        segs = [(0, 4096, bytes((7 * i + 1) & 255 for i in range(4096))), (4096, G32 - 2048, None),
-                (G32 - 2048, G32 + 2048, bytes((13 * j + 5) & 255 for j in range(4096))), (G32 + 2048, G32 + 65536, None)]
+    """the first n bytes of mapping 'n' / 'z' of huge_harness.cpp (same marker table), in pieces"""
+    v = 0 if mapping == "n" else 1
     zero = bytes(1 << 24)
-    for lo, hi, data in segs:
-        hi = min(hi, n)
-        if hi <= lo: continue
-        if data is not None:
-            yield data[:hi - lo]
-        else:
-            left = hi - lo
-            while left > 0:
-                k = min(left, len(zero)); yield zero[:k] if k < len(zero) else zero; left -= k
+    pos = 0
+    for r, (lo, hi) in enumerate(MARK_REGIONS):
+        for a_, b_, data in ((pos, lo, None), (lo, hi, bytes((MARK_A[(r + v) % 6] * j + MARK_B[r] + 97 * v) & 255 for j in range(hi - lo)))):
+            b_ = min(b_, n)
+            if b_ <= a_: continue
+            if data is not None:
+                yield data[:b_ - a_]
+            else:
+                left = b_ - a_
+                while left > 0:
+                    k = min(left, len(zero)); yield zero[:k] if k < len(zero) else zero; left -= k
+        pos = hi
 
 
 hexpect = {}
@@ -624,7 +637,7 @@ if hcases:
                                      {"case": c, "impl": l, "replay_cmd": "bin/check C14 --replay <this file>"})
                 elif c[0] == "V" and l != hexpect.get(c):
                     found = True
-                    ck.violation("digest of ONE tlx::string_view of %s bytes (> 2^32) differs from hashlib (size_t -> uint32 truncation in process(string_view)?): impl=%s want=%s" % (c.split()[3], l, hexpect.get(c)),
+                    ck.violation("digest of ONE tlx::string_view of %s bytes (longer than the 2^30-byte pieces of process(string_view)) differs from hashlib over the same position-dependent bytes: impl=%s want=%s" % (c.split()[3], l, hexpect.get(c)),
                                  {"case": c, "impl": l, "standard": hexpect.get(c), "replay_cmd": "bin/check C14 --replay <this file>"})
                 else:
                     if l != hexpect.get(c):
